@@ -1,6 +1,7 @@
 package vc
 
 import (
+	"go/constant"
 	"fmt"
 	"go/types"
 	"runtime/debug"
@@ -186,6 +187,7 @@ func (w *World) GenVC(fn *ssa.Function, ct *Contract, opts ...func(*Engine)) (re
 			}
 		}
 	}
+	e.checkFmtSelfRecursion(fn, st)
 	entryAssumes := len(e.Assumes)
 	rets, exit, fr := e.execFuncTop(fn, args, binds, st, ct)
 	if e.OwnCheck && deepCopyKind(fn) != "" {
@@ -665,4 +667,104 @@ func (e *Engine) isKnownBuffer(v Val) bool {
 		}
 	}
 	return false
+}
+
+// checkFmtSelfRecursion: inside T's String() or Error() method, handing a value of type T (or *T) itself to a fmt
+// formatting function makes fmt call that very method again - unbounded recursion, which ends in a stack overflow
+// that no recover() catches. The model of fmt is pure (results unconstrained), so this is stated as an obligation
+// of its own: every such argument must have been converted to a type without the method.
+func (e *Engine) checkFmtSelfRecursion(fn *ssa.Function, st *State) {
+	if fn.Signature.Recv() == nil || (fn.Name() != "String" && fn.Name() != "Error") || fn.Signature.Params().Len() != 0 {
+		return
+	}
+	recvT := fn.Signature.Recv().Type()
+	base := recvT
+	if p, ok := types.Unalias(recvT).Underlying().(*types.Pointer); ok {
+		base = p.Elem()
+	}
+	selfLike := func(t types.Type) bool {
+		if p, ok := types.Unalias(t).(*types.Pointer); ok {
+			t = p.Elem()
+		}
+		return types.Identical(t, base)
+	}
+	for _, b := range fn.Blocks {
+		for _, in := range b.Instrs {
+			call, ok := in.(*ssa.Call)
+			if !ok {
+				continue
+			}
+			callee := call.Call.StaticCallee()
+			if callee == nil || pkgPathOf(callee) != "fmt" || len(call.Call.Args) == 0 {
+				continue
+			}
+			// the variadic argument: a slice of a local [n]interface{} array
+			sl, ok := call.Call.Args[len(call.Call.Args)-1].(*ssa.Slice)
+			if !ok {
+				continue
+			}
+			al, ok := sl.X.(*ssa.Alloc)
+			if !ok || al.Referrers() == nil {
+				continue
+			}
+			// which argument positions are formatted with a verb that consults String()/Error() (%v %s %x %X %q)
+			stringVerbAt := func(int) bool { return true }
+			if strings.HasSuffix(callee.Name(), "f") {
+				fmtArg := len(call.Call.Args) - 2
+				if fmtArg < 0 {
+					continue
+				}
+				k, ok := call.Call.Args[fmtArg].(*ssa.Const)
+				if !ok || k.Value == nil || k.Value.Kind() != constant.String {
+					continue
+				}
+				verbs := printfVerbs(constant.StringVal(k.Value))
+				stringVerbAt = func(i int) bool {
+					return i < len(verbs) && strings.ContainsRune("vsxXq", verbs[i])
+				}
+			}
+			for _, u := range *al.Referrers() {
+				ia, ok := u.(*ssa.IndexAddr)
+				if !ok || ia.Referrers() == nil {
+					continue
+				}
+				idx, isConst := ia.Index.(*ssa.Const)
+				if !isConst || !stringVerbAt(int(idx.Int64())) {
+					continue
+				}
+				for _, uu := range *ia.Referrers() {
+					stv, ok := uu.(*ssa.Store)
+					if !ok {
+						continue
+					}
+					if mi, ok := stv.Val.(*ssa.MakeInterface); ok && selfLike(mi.X.Type()) {
+						e.oblige(st, "panic", "fmt-self", e.C.False(), posOf(e.W.Prog, call),
+							"the receiver itself is passed to "+callee.Name()+" inside its own "+fn.Name()+"() method: fmt calls "+fn.Name()+"() again without bound (stack overflow)")
+					}
+				}
+			}
+		}
+	}
+}
+
+// printfVerbs lists, per operand, the verb that formats it ('*' width/precision operands are listed as '*').
+func printfVerbs(f string) []rune {
+	var out []rune
+	rs := []rune(f)
+	for i := 0; i < len(rs); i++ {
+		if rs[i] != '%' {
+			continue
+		}
+		i++
+		for i < len(rs) && strings.ContainsRune("+-# 0123456789.[]*", rs[i]) {
+			if rs[i] == '*' {
+				out = append(out, '*')
+			}
+			i++
+		}
+		if i < len(rs) && rs[i] != '%' {
+			out = append(out, rs[i])
+		}
+	}
+	return out
 }
